@@ -1,3 +1,49 @@
+import PhyModel.Proofs.Gibbs
 import PhyModel.Model.Moves
+/-! # C04 — data-point, prune-regraft and subtree moves preserve the same posterior
+
+`gibbs_block_invariant` is the argument behind the data-point move and the prune-regraft move: a
+move that picks a choice `c` (which data point / which subtree) with a probability that is constant
+on the blocks of an equivalence relation `rel c` (trees differing only in where that data point sits
+/ where that subtree is attached) and redraws the state within the block proportionally to π leaves π
+invariant.  `sweep_invariant`: any sequence of π-invariant kernels is π-invariant, so every
+interleaving of the moves in a sweep has π as stationary distribution.
+
+The executable models `Moves.dataPointMove`, `Moves.pruneRegraft`, `Moves.subtreeMove` are compared
+transition row by transition row with the exact kernels of the real samplers.  For the random-subtree
+particle-Gibbs move the unconditional statement is FALSE of model and code (known finding F7: the
+region is selected with a state-dependent, uncorrected probability); the pinned counter-instances are
+evaluated on every run. -/
+
 namespace PhyModel.Props.C04
+open Finset BigOperators
+
+theorem gibbs_block_invariant {X Cc : Type} [Fintype X] [Fintype Cc] [DecidableEq X]
+    (π : X → ℚ) (hπ : ∀ x, 0 ≤ π x)
+    (r : X → Cc → ℚ) (hr : ∀ x, π x ≠ 0 → ∑ c, r x c = 1)
+    (rel : Cc → X → X → Prop) [∀ c x z, Decidable (rel c x z)]
+    (hrefl : ∀ c x, rel c x x) (hsymm : ∀ c x z, rel c x z → rel c z x)
+    (htrans : ∀ c x z w, rel c x z → rel c z w → rel c x w)
+    (hconst : ∀ c x z, rel c x z → r x c = r z c) (y : X) :
+    ∑ x, π x * (∑ c, r x c * (if rel c x y then π y / (∑ z, if rel c x z then π z else 0) else 0))
+      = π y :=
+  Moves.gibbs_block_invariant π hπ r hr rel hrefl hsymm htrans hconst y
+
+/-- composition of two π-invariant kernels is π-invariant (hence any finite interleaving is) -/
+theorem sweep_invariant {X : Type} [Fintype X] (π : X → ℚ) (P Q : X → X → ℚ)
+    (hP : ∀ y, ∑ x, π x * P x y = π y) (hQ : ∀ y, ∑ x, π x * Q x y = π y) (z : X) :
+    ∑ x, π x * (∑ y, P x y * Q y z) = π z := by
+  have : ∑ x, π x * (∑ y, P x y * Q y z) = ∑ y, (∑ x, π x * P x y) * Q y z := by
+    simp only [Finset.mul_sum, Finset.sum_mul]
+    rw [Finset.sum_comm]
+    apply Finset.sum_congr rfl; intro y _
+    apply Finset.sum_congr rfl; intro x _; ring
+  rw [this]
+  simp only [hP]
+  exact hQ z
+
+-- OBLIGATION-OPEN dataPoint_invariant: instantiate gibbs_block_invariant with `Moves.dpStep` (blocks = trees differing only in the location of data point i among clones that keep >= 1 other point, or the outlier set) and lift through the uniformly random scan order
+-- OBLIGATION-OPEN pruneRegraft_invariant: instantiate gibbs_block_invariant with `Moves.pruneRegraft` (choice = subtree root, uniform over the constant number of clones; block = re-attachments of the pruned subtree)
+-- OBLIGATION-OPEN subtree_invariant: FALSE of model and code (known finding F7); the conditional statement (given the selected region, the re-weighted conditional SMC targets the full-tree density) is not yet formalised
+
 end PhyModel.Props.C04
